@@ -1,6 +1,7 @@
 package props
 
 import (
+	"bytes"
 	"fmt"
 	"regexp"
 	"strings"
@@ -230,16 +231,17 @@ func c07Scenarios(tier string) []*core.Scenario {
 		scs = append(scs, arity("common_arity2", 2, eight, handled))
 	}
 	// undefined symbols in every operand position of supported statements, with a label after them
+	undefSyms := []string{"undef_sym", "U2", "MESSAGE", "XDISK", "NO_TABLE", "e820h"} // incl. names that contain register names / look like numbers
 	undefStmts := []string{"MOV AX,{U}", "MOV {U},AX", "MOV AX,[{U}]", "MOV [{U}],AX", "ADD CX,{U}", "CMP AL,{U}", "MOV BYTE [{U}],1", "MOV BYTE [BX],{U}", "MOV AX,[BX+{U}]",
 		"DB {U}", "DW {U}", "DD {U}", "DB 1,{U},2", "RESB {U}", "RESB {U}-$", "ALIGNB {U}", "ORG {U}", "JMP {U}", "JE {U}", "CALL {U}", "JMP DWORD 8:{U}", "JMP DWORD {U}:0", "PUSH {U}",
 		"INT {U}", "IN AL,{U}", "OUT {U},AL", "LGDT [{U}]", "SHL AX,{U}", "IMUL CX,{U}", "X EQU {U}", "X EQU {U}+1", "GLOBAL {U}", "AND EAX,{U}", "MOV ECX,[ESP+{U}]"}
 	scs = append(scs, &core.Scenario{
 		Name: "undefined_symbols", Bound: -1,
 		Rule:   "an undefined symbol in every operand position of every supported statement, followed by a defined label and data: the run must produce a diagnostic (a silently substituted value or dropped statement is a failure); non-trivial = every case (all are negative cases: distinctness by statement)",
-		Bounds: map[string]any{"statements": len(undefStmts), "symbols": []string{"undef_sym", "U2"}},
+		Bounds: map[string]any{"statements": len(undefStmts), "symbols": undefSyms},
 		Build: func(c *core.Chooser) *core.Case {
 			st := undefStmts[c.Pick("stmt", len(undefStmts))]
-			u := c.Str("sym", "undef_sym", "U2")
+			u := undefSyms[c.Pick("sym", len(undefSyms))]
 			stmt := strings.ReplaceAll(st, "{U}", u)
 			after := ""
 			if strings.HasPrefix(st, "X EQU") {
@@ -445,6 +447,36 @@ func c07CLI(r *core.Run, tier string) {
 		}(sig, reps[sig])
 	}
 	wg.Wait()
+	// shapes that only the real command's reading of the file can spoil: very long lines, very many lines, a
+	// missing final newline, CR-only line ends - silent and exit 0 means every statement must be in the output
+	shapes := map[string]string{}
+	{
+		var sb strings.Builder
+		sb.WriteString("\tDB 0x11\n\tDB 1")
+		for i := 0; i < 20000; i++ {
+			sb.WriteString(",2")
+		}
+		sb.WriteString("\n\tDB 0x33\n")
+		shapes["line_of_70_KB"] = sb.String()
+		sb.Reset()
+		for i := 0; i < 30000; i++ {
+			sb.WriteString("\tDB 7\n")
+		}
+		shapes["30000_lines"] = sb.String()
+		shapes["comment_of_70_KB_then_code"] = "\tDB 1 ; " + strings.Repeat("c", 70000) + "\n\tDB 2\n"
+		shapes["string_of_70_KB"] = "\tDB \"" + strings.Repeat("s", 70000) + "\"\n\tDB 2\n"
+	}
+	for name, src := range shapes {
+		api := p.ExecTimed(src, 10*time.Minute)
+		c := p.CLI(src, nil, false)
+		n++
+		if c.ExitCode == 0 && !core.ReportsDiag(c, cliBase) && !api.Died && !core.ReportsDiag(api, nil) && !bytes.Equal(c.Out, api.Out) {
+			dev := fmt.Sprintf("output_truncated:%d_of_%d", len(c.Out), len(api.Out))
+			r.AddFail("cli_shapes", name, map[string]string{"shape": name}, []string{src},
+				core.Fail{Facet: "cli_statements_lost", Dev: dev, Detail: fmt.Sprintf("the real command exits 0 without a diagnostic but wrote %d bytes; the same source assembled in process gives %d bytes", len(c.Out), len(api.Out))})
+		}
+		r.AddNT("clishape|" + name)
+	}
 	r.AddSample(map[string]any{"cli_diagnostic_representative": order[0]})
 	r.AddCustom("cli_diagnostics", "one representative statement for each distinct diagnostic message observed in process over the arity<=1 space, re-run through the real command: a diagnostic must be visible there too",
 		map[string]any{"distinct_messages": len(order)}, n+1, n, n, n, 1, true, time.Since(t0).Seconds())
